@@ -52,6 +52,10 @@ CHECKS["C13"] = dict(engine="X", technique=X, design="§4 C13",
                      text="Bounded symbolic model checking: section layouts from a catalogue (10 for Google/Numpy, 5 for Sphinx) rendered in well-formed syntax with symbolic holes (item names, descriptions with an embedded colon or a continuation line, admonition title), parsed by the real parsers; parsed sections must equal the written structure (kinds in written order for Google/Numpy, names, annotations, signature fallbacks, descriptions, titles, no leaks).",
                      note="Trusted: CrossHair models + z3; regexes run by CPython's re on the realised line; docstring handed over pre-split; renderers written from docs/reference/docstrings.md. A trailing newline in a Numpy description (the separator line) is not counted as a difference.")
 
+CHECKS["C18"] = dict(engine="X", technique="CrossHair/z3 exhausts the bounded space of dataclass definitions (finite-domain choices as solver variables, validity as preconditions); on every feasible choice the real DataclassesExtension is compared with CPython's own dataclasses executing the same source", design="§4 C18",
+                     text="Bounded exhaustive case analysis driven by the solver: every combination of hierarchy shape (single, dataclass child, plain child, hand-written __init__, non-dataclass, three levels), decorator arguments (init/kw_only on parent and child), field form of every field (plain, default, field(default/init=False/kw_only/default_factory), ClassVar, InitVar, KW_ONLY marker, property) and whether a child field overrides a parent field; oracle = inspect.signature of the class built by CPython's dataclasses from the same source (no reference model).",
+                     note="The inputs are programs: nothing value-symbolic survives compile(); the engine only decides which finite-domain choices are feasible and that none is left unexplored. Known finding: child fields that override parent fields with a form changing their participation in __init__ (region excluded).")
+
 NOT_APPLICABLE = [
     {"property_id": "C17", "reason": "static-vs-dynamic agreement needs importlib/inspect on live objects of concrete executable modules: nothing symbolic survives the import boundary, so a solver could only enumerate program texts (enumeration, not solving). See DESIGN.md §5."},
 ]
